@@ -48,7 +48,7 @@ add("C16", "exploration", "bounded-exhaustive enumeration of key strings x opera
     "all 11110 keys of 1-4 components over a 10-symbol alphabet ('..', '.', empty, absolute-looking, spaces, '*', ',', ':') x create/write/query/getinfo/destroy plus create-then-destroy and write-then-destroy for '..' keys, on an in-memory device holding bucket-shaped trees around the root",
     "Go toolchain; rewriter; vos path resolution (filepath.Clean, no symlinks)", "seqmc")
 add("C17", "model_checking", "explicit-state breadth-first search over operation sequences on the real catalog, successors by replay (+ schedule exploration of concurrent operations, see DESIGN)",
-    "BFS over 24 operations (4 keys x create schema 1|2, write year 2021|2022, destroy, query) to depth 3 (thorough 5) with de-duplication by canonical state (files, header schemas, directory tree); invariant in every state: catalog listing = device scan = freshly loaded catalog, every existing bucket queryable",
+    "BFS over 24 operations (4 keys x create schema 1|2, write year 2021|2022, destroy, query) to depth 3 (thorough 5) with de-duplication by canonical state (files, header schemas, directory tree); concurrent part: three thread sets of catalog operations under the controlled scheduler, ALL schedules with <=2 deviations (thorough 3); invariant in every state / end state: catalog listing = device scan = freshly loaded catalog, every existing bucket queryable",
     TB + "; canonical state abstraction (stated in the evidence)", "seqmc")
 CR = TB + "; process-crash model = every completed syscall is in the image; scripted scheduler drives the real SyncWAL loop (BackgroundSync on) deterministically; payload tags attribute every recovered row to one issued write"
 add("C01", "fault_enumeration", "exhaustive enumeration of crash points (every device-operation prefix) of bounded write histories, restart through the real startup path",
